@@ -448,7 +448,9 @@ def run_scenario(flowir: str, script: Dict[str, Any], location: str, perturb_see
                  extra_files: Optional[Dict[str, str]] = None, point_hooks=None,
                  on_controller: Optional[Callable[[Any], None]] = None,
                  max_launches: Optional[int] = None, linger_v: float = 0.0,
-                 slow_stagein: Optional[Dict[str, float]] = None) -> Dict[str, Any]:
+                 slow_stagein: Optional[Dict[str, float]] = None,
+                 pauses: Optional[List[List[float]]] = None,
+                 pause_on_launch: Optional[Dict[str, Any]] = None) -> Dict[str, Any]:
     """Runs all stages like scripts/elaunch.py:Run and returns the observed outcome + events.
     linger_v: virtual seconds the harness keeps observing after the stage loop has returned (checks that are still
     in flight on controller threads, e.g. a 25 s post-mortem analysis, complete inside this window)."""
@@ -561,6 +563,39 @@ def run_scenario(flowir: str, script: Dict[str, Any], location: str, perturb_see
     th = threading.Thread(target=stage_loop, name="stage-loop", daemon=True)
     t0 = time.time()
     th.start()
+    if pauses:
+        # the controller's own pause / resume interface (scripts/elaunch.py uses it for live patching): the controller
+        # is put to sleep at given virtual times and woken up a few virtual seconds later
+        def pauser():
+            for at_v, dur_v in pauses:
+                left = at_v / dilate.K - (time.time() - t0)
+                if left > 0 and done.wait(left):
+                    return
+                if done.is_set():
+                    return
+                REC.record("controller.sleep", None)
+                try:
+                    ctrl.sleep()
+                    done.wait(dur_v / dilate.K)
+                finally:
+                    REC.record("controller.wake_up", None)
+                    ctrl.wake_up()
+        threading.Thread(target=pauser, name="pauser", daemon=True).start()
+    if pause_on_launch:
+        # pause the controller whenever a task whose reference contains `match` is launched and wake it up `dur`
+        # virtual seconds later: the task's exit (and its finished-notification) then falls inside the pause
+        def on_launch(ref, n, job, _m=pause_on_launch["match"], _d=float(pause_on_launch["dur"])):
+            if _m in ref and not done.is_set() and CTX.current_root == location:
+                REC.record("controller.sleep", ref)
+                ctrl.sleep()
+
+                def wake():
+                    REC.record("controller.wake_up", ref)
+                    ctrl.wake_up()
+                tm = threading.Timer(_d / dilate.K, wake)
+                tm.daemon = True
+                tm.start()
+        BACKEND.on_launch.append(on_launch)
     finished = done.wait(watchdog_s)
     res["wall_s"] = round(time.time() - t0, 3)
     res["watchdog_fired"] = not finished
@@ -706,6 +741,8 @@ CONTROLLER_TARGETS = (
     ("control", "Controller._fake_finish_with_state", ()),
     ("control", "Controller.finalize_submit_components", ("safe_observe", "check_for_push_notification")),
     ("control", "Controller._schedule", ()),
+    ("control", "Controller.wake_up", ()),
+    ("control", "Controller.sleep", ()),
     ("control", "Controller.observe_engine_change", ()),
     ("control", "Controller._handle_condition_component_finished", ()),
     ("control", "TransitionComponentToFinalState", ()),
